@@ -75,6 +75,7 @@ def evaluate_here(req):
 
 
 SENSE = None       # simenv.EnvSense of the exec'ed "other process" zygote
+MISSING_IMPORTS = []   # modules library code tried to import and did not find (optional accelerators and the like)
 
 
 def _zygote_main(tree, rfd, wfd, other=False):
@@ -89,6 +90,17 @@ def _zygote_main(tree, rfd, wfd, other=False):
         simenv.install_datetime()
         simenv.SimClock(prefix, wall=2_211_753_600.0 + 86400 * 211 + 7 * 3600, mono=9_000_000.0).install()
         SENSE = simenv.EnvSense(prefix).install()
+        import builtins
+        _real_import = builtins.__import__
+
+        def _import(name, globals=None, locals=None, fromlist=(), level=0):
+            try:
+                return _real_import(name, globals, locals, fromlist, level)
+            except ImportError:
+                if globals and str(globals.get("__file__", "")).startswith(prefix) and name not in MISSING_IMPORTS:
+                    MISSING_IMPORTS.append(name)
+                raise
+        builtins.__import__ = _import
         root = logging.getLogger()
         root.addHandler(logging.NullHandler())
         root.setLevel(logging.DEBUG)
@@ -100,7 +112,7 @@ def _zygote_main(tree, rfd, wfd, other=False):
     except BaseException:  # noqa   a missing / broken cache is the library's business
         sys.modules.pop("simple_ddl_parser.parsetab", None)
     assert os.path.abspath(simple_ddl_parser.__file__).startswith(os.path.abspath(tree))
-    _write_msg(wfd, ["ready", SENSE.take()] if SENSE is not None else "ready")
+    _write_msg(wfd, ["ready", SENSE.take(), list(MISSING_IMPORTS)] if SENSE is not None else "ready")
     while True:
         try:
             req = _read_msg(rfd)
@@ -161,6 +173,7 @@ class Reference:
         self.env_flips = 0             # re-evaluations under a flipped variable
         self.env_dependent = []        # [key, value it was flipped to] of requests whose outcome followed the variable
         self.import_env = dict(extra_env or {})
+        self.optional_imports_missing = []
         if hashseed is not None:
             # a zygote in a freshly exec'ed interpreter under ANOTHER hash seed: "in another process or
             # under a different hash seed yields an equal result"
@@ -173,6 +186,7 @@ class Reference:
             msg = _read_msg(self.rfd)
             if not (isinstance(msg, list) and msg and msg[0] == "ready"):
                 raise RuntimeError("zygote failed to start: %r" % (msg,))
+            self.optional_imports_missing = list(msg[2]) if len(msg) > 2 else []
             if msg[1] and extra_env is None:
                 # library code read environment variables while it was imported: this "other process" is restarted with
                 # each of them flipped, so that every comparison with it is also a comparison across that variable
